@@ -679,3 +679,7 @@ add("C05", "revert: _parse_join returns a join although the peeked APPLY was not
 add("C05", "separator match turned into a peek through the positional advance flag", P,
     "        while self._match(sep):\n            if isinstance(parse_result, exp.Expr):",
     "        while self._match(sep, False):\n            if isinstance(parse_result, exp.Expr):", "C05.a")
+
+add("C05", "revert: UESCAPE character interpolated into a pattern unescaped", G,
+    "            escape_pattern = re.compile(rf\"{re.escape(escape.name)}(\\d+)\")",
+    "            escape_pattern = re.compile(rf\"{escape.name}(\\d+)\")", "C05.l")
